@@ -317,7 +317,7 @@ class Interp:
                     v = v.ref
                 if isinstance(v, Ref):
                     alloc, path = v.alloc, v.path
-                elif isinstance(v, (Str, Opaque)):
+                elif isinstance(v, (Str, Opaque)) or getattr(v, "by_value_string", False):
                     # string slices are represented by value: `*s` is the string itself
                     pass
                 else:
@@ -1023,6 +1023,7 @@ class Interp:
             pending = {0: entry}
             heap = [(idx[0], 0)]
             seen_in = {}
+            seen_list = {}
             visits = {}
             ret_state = None
             total = 0
@@ -1038,9 +1039,12 @@ class Interp:
                     prev = seen_in.get(bb)
                     v = visits.get(bb, 0)
                     if prev is not None and v < self.unroll:
-                        # loop unrolling: analyse this iteration on its own state
-                        if states_equal(join_states(prev, cur), prev):
+                        # loop unrolling: analyse this iteration on its own state (skip it only if
+                        # exactly this state was analysed before)
+                        lst = seen_list.setdefault(bb, [])
+                        if any(states_equal(x, cur) for x in lst):
                             continue
+                        lst.append(cur.copy())
                         seen_in[bb] = join_states(prev, cur)
                         visits[bb] = v + 1
                     else:
